@@ -183,6 +183,57 @@ theorem v1_offsets_in_bounds (items : List Item) (es : List Elem) (h : compileFu
     obtain ⟨h1, h2⟩ := resolveGotos_ok _ _ hr (compile_ok items)
     exact processEllipsis_ok es0 h1 h2
 
+/-- `v1_goto_resolved`: in every flow `parse_flow_elements` accepts, a `goto n` at index `i` of the extracted list
+    has a checkpoint `label n` at some index `k` of the same flow, and in the result it is the relative jump with
+    `i + _next = k` — it lands exactly on (the jump that replaced) its label.  In particular a goto to an undefined
+    checkpoint is never left dangling: the flow is rejected (`v1_undefined_goto_rejected`). -/
+theorem v1_goto_resolved (items : List Item) (es : List Elem) (h : compileFull items = .ok es) (i : Nat) (e : Elem)
+    (hi : (compile items)[i]? = some e) (hg : e.kind = .goto) :
+    ∃ (n : String) (k : Nat) (e' lab : Elem), e.name = some n ∧ es[i]? = some e' ∧ e'.kind = .jump ∧
+      e'.absolute = false ∧ e'.next = some ((k : Int) - (i : Int)) ∧ (i : Int) + ((k : Int) - (i : Int)) = k ∧
+      (compile items)[k]? = some lab ∧ lab.kind = .label ∧ lab.name = some n := by
+  unfold compileFull at h
+  cases hr : resolveGotos (compile items) with
+  | error m => rw [hr] at h; cases h
+  | ok es0 =>
+    rw [hr] at h
+    cases h
+    obtain ⟨n, k, e', lab, h1, h2, h3, h4, h5, h6, h7⟩ := resolveGotos_lands _ _ hr i e hi hg
+    have hab : e'.absolute = false := by
+      have hok := (resolveGotos_ok _ _ hr (compile_ok items)).1
+      -- the source goto is not absolute (only `return` is), `_resolve_gotos` does not touch the flag
+      cases hb : e'.absolute with
+      | false => rfl
+      | true =>
+        exfalso
+        have hsrc := (compile_ok items) i e hi
+        cases hbe : e.absolute with
+        | true => have := hsrc.absJump hbe; rw [hg] at this; cases this
+        | false =>
+          -- e' = { e with kind := jump, next := .. } : same flag
+          have := resolveGotos_flag _ _ hr i e e' hi h2
+          rw [this, hbe] at hb; cases hb
+    exact ⟨n, k, e', lab, h1, processEllipsis_keeps_jump es0 i e' h2 h3, h3, hab, h4, by omega, h5, h6, h7⟩
+
+/-- a goto whose checkpoint is not defined in the flow makes the compiler reject the flow -/
+theorem v1_undefined_goto_rejected (items : List Item) (i : Nat) (e : Elem) (n : String)
+    (hi : (compile items)[i]? = some e) (hg : e.kind = .goto) (hn : e.name = some n)
+    (hundef : ∀ (k : Nat) (lab : Elem), (compile items)[k]? = some lab → lab.kind = .label → lab.name ≠ some n) :
+    ∃ m, compileFull items = .error m := by
+  cases hc : compileFull items with
+  | error m => exact ⟨m, rfl⟩
+  | ok es =>
+    obtain ⟨n', k, _, lab, h1, _, _, _, _, _, h5, h6, h7⟩ := v1_goto_resolved items es hc i e hi hg
+    rw [hn] at h1; cases h1
+    exact absurd h7 (hundef k lab h5 h6)
+
+/-- non-vacuity: a backward and a forward goto (finite fact, by evaluation) -/
+example : (match compileFull [.label "a", .goto "b", .simple "user", .label "b", .goto "a"] with
+    | .ok es => es.map (·.next) == [some 1, some 2, none, some 1, some (-4)]
+    | .error _ => false) = true ∧
+    (match compileFull [.goto "nowhere"] with | .ok _ => false | .error _ => true) = true := by
+  decide
+
 /-- non-vacuity: a nested while / if-else / break / goto program compiles and passes (finite fact, by evaluation) -/
 example : (match compileFull [.label "top", .whileS [.ifS [.simple "break"] [.simple "continue"], .simple "user"],
       .branches [[.simple "user"], [.simple "user", .goto "top"]], .ret] with
